@@ -92,10 +92,10 @@ V("c11-export-text-outside-lock", "C11", CN, "        with self._record_buffer_l
   "        if styles:\n            text = \"\".join(\n                (style.render(text) if style else text)\n                for text, style, _ in self._record_buffer\n            )\n            return text\n        with self._record_buffer_lock:\n            if styles:\n                text = \"\"", "R11.4")
 V("c11-live-update-no-lock", "C11", LV, "        with self._lock:\n            self._live_render.set_renderable(renderable)\n            if refresh:\n                self.refresh()", "        self._live_render.set_renderable(renderable)\n        if refresh:\n            self.refresh()", "R11.4")
 V("c11-liverender-no-lock", "C11", LV, "        with self._live._lock:\n            lines = console.render_lines(self.renderable, options, pad=False)\n", "        if True:\n            lines = console.render_lines(self.renderable, options, pad=False)\n", "R11.4")
-V("c11-join-under-lock", "C11", LV, "                else:\n                    # jupyter last refresh must occur after console pop render hook\n                    # i am not sure why this is needed\n                    self.refresh()\n        if self.auto_refresh and self._refresh_thread is not None:\n            self._refresh_thread.join()\n            self._refresh_thread = None",
-  "                else:\n                    # jupyter last refresh must occur after console pop render hook\n                    # i am not sure why this is needed\n                    self.refresh()\n            if self.auto_refresh and self._refresh_thread is not None:\n                self._refresh_thread.join()\n                self._refresh_thread = None", "R11.6")
-V("c11-progress-join-under-lock", "C11", PR, "                self._disable_redirect_io()\n                self.console.pop_render_hook()\n        if self._refresh_thread is not None:\n            self._refresh_thread.join()\n            self._refresh_thread = None",
-  "                self._disable_redirect_io()\n                self.console.pop_render_hook()\n            if self._refresh_thread is not None:\n                self._refresh_thread.join()\n                self._refresh_thread = None", "R11.6")
+V("c11-join-under-lock", "C11", LV, "                else:\n                    # jupyter last refresh must occur after console pop render hook\n                    # i am not sure why this is needed\n                    self.refresh()\n        if refresh_thread is not None:\n            refresh_thread.join()",
+  "                else:\n                    # jupyter last refresh must occur after console pop render hook\n                    # i am not sure why this is needed\n                    self.refresh()\n            if refresh_thread is not None:\n                refresh_thread.join()", "R11.6")
+V("c11-progress-join-under-lock", "C11", PR, "                self._disable_redirect_io()\n                self.console.pop_render_hook()\n        if refresh_thread is not None:\n            refresh_thread.join()",
+  "                self._disable_redirect_io()\n                self.console.pop_render_hook()\n            if refresh_thread is not None:\n                refresh_thread.join()", "R11.6")
 V("c11-benign-lock-alias", "C11", CN, "    def _check_buffer(self) -> None:\n        \"\"\"Check if the buffer may be rendered.\"\"\"\n        with self._lock:", "    def _check_buffer(self) -> None:\n        \"\"\"Check if the buffer may be rendered.\"\"\"\n        lock = self._lock\n        with lock:", None)
 V("c11-benign-split-with", "C11", LV, "            with self._lock, self.console:\n                self.console.print(Control(\"\"))", "            with self._lock:\n                with self.console:\n                    self.console.print(Control(\"\"))", None)
 
@@ -123,8 +123,8 @@ V("c12-benign-lock-alias", "C12", PR, "        with self._lock:\n            del
 LR = "rich/live_render.py"
 V("c10-live-pop-outside-finally", "C10", LV, "            finally:\n                self._disable_redirect_io()\n                self.console.pop_render_hook()\n                self.console.show_cursor(True)\n",
   "            finally:\n                self._disable_redirect_io()\n                self.console.show_cursor(True)\n            self.console.pop_render_hook()\n", "R10.1")
-V("c10-progress-no-finally", "C10", PR, "            try:\n                if self.auto_refresh and self._refresh_thread is not None:\n                    self._refresh_thread.stop()\n                self.refresh()\n                # flush text pending in the redirected streams while it can still go above the frame\n                self._disable_redirect_io()\n                if self.console.is_terminal:\n                    self.console.line()\n            finally:\n                self.console.show_cursor(True)\n                self._disable_redirect_io()\n                self.console.pop_render_hook()",
-  "            if self.auto_refresh and self._refresh_thread is not None:\n                self._refresh_thread.stop()\n            self.refresh()\n            self._disable_redirect_io()\n            if self.console.is_terminal:\n                self.console.line()\n            self.console.show_cursor(True)\n            self._disable_redirect_io()\n            self.console.pop_render_hook()", "R10.1")
+V("c10-progress-no-finally", "C10", PR, "            try:\n                if refresh_thread is not None:\n                    refresh_thread.stop()\n                self.refresh()\n                # flush text pending in the redirected streams while it can still go above the frame\n                self._disable_redirect_io()\n                if self.console.is_terminal:\n                    self.console.line()\n            finally:\n                self.console.show_cursor(True)\n                self._disable_redirect_io()\n                self.console.pop_render_hook()",
+  "            if refresh_thread is not None:\n                refresh_thread.stop()\n            self.refresh()\n            self._disable_redirect_io()\n            if self.console.is_terminal:\n                self.console.line()\n            self.console.show_cursor(True)\n            self._disable_redirect_io()\n            self.console.pop_render_hook()", "R10.1")
 V("c10-progress-exit-swallows", "C10", PR, "    def __exit__(self, exc_type, exc_val, exc_tb) -> None:\n        self.stop()\n\n    def track(", "    def __exit__(self, exc_type, exc_val, exc_tb) -> None:\n        self.stop()\n        return True\n\n    def track(", "R10.1")
 V("c10-live-exit-conditional", "C10", LV, "    def __exit__(self, exc_type, exc_val, exc_tb) -> None:\n        self.stop()\n\n    def _enable_redirect_io", "    def __exit__(self, exc_type, exc_val, exc_tb) -> None:\n        if exc_type is None:\n            self.stop()\n\n    def _enable_redirect_io", "R10.1")
 V("c10-live-stop-no-cursor", "C10", LV, "                self.console.pop_render_hook()\n                self.console.show_cursor(True)\n\n            if self.transient:", "                self.console.pop_render_hook()\n\n            if self.transient:", "R10.1")
@@ -367,14 +367,14 @@ V("c17-guides-lstrip", "C17", "rich/text.py", "            indent = match.group(
 V("c17-guides-regex-ws", "C17", "rich/text.py", '        re_indent = re.compile(r"^( *)(.*)$")', '        re_indent = re.compile(r"^(\\s*)(.*)$")', "R17.7")
 V("c19-fileproxy-class-buffer", "C19", "rich/file_proxy.py", "        self.__buffer: List[str] = []\n", "", "R19.9")
 CONS = "rich/console.py"
-V("c10-progress-stop-not-idempotent", "C10", PR, "            if not self._started:\n                return\n            self._started = False\n            try:\n                if self.auto_refresh and self._refresh_thread is not None:\n                    self._refresh_thread.stop()\n                self.refresh()",
-  "            if not self._started:\n                pass\n            self._started = False\n            try:\n                if self.auto_refresh and self._refresh_thread is not None:\n                    self._refresh_thread.stop()\n                self.refresh()", "R10.5")
+V("c10-progress-stop-not-idempotent", "C10", PR, "            if not self._started:\n                return\n            self._started = False\n            # taken over under the lock: a concurrent start() may install a new thread\n            refresh_thread = self._refresh_thread\n            self._refresh_thread = None\n            try:\n                if refresh_thread is not None:\n                    refresh_thread.stop()\n                self.refresh()",
+  "            if not self._started:\n                pass\n            self._started = False\n            # taken over under the lock: a concurrent start() may install a new thread\n            refresh_thread = self._refresh_thread\n            self._refresh_thread = None\n            try:\n                if refresh_thread is not None:\n                    refresh_thread.stop()\n                self.refresh()", "R10.5")
 V("c10-log-lazy-render", "C10", CONS, "            for renderable in renderables:\n                extend(render(renderable, render_options))\n            buffer_extend = self._buffer.extend",
   "            new_segments = (s for renderable in renderables for s in render(renderable, render_options))\n            buffer_extend = self._buffer.extend", "R10.6")
 V("c10-benign-log-listcomp", "C10", CONS, "            for renderable in renderables:\n                extend(render(renderable, render_options))\n            buffer_extend = self._buffer.extend",
   "            new_segments = [s for renderable in renderables for s in render(renderable, render_options)]\n            buffer_extend = self._buffer.extend", None)
-V("c10-benign-stop-nested", "C10", "rich/live.py", "            if not self._started:\n                return\n            self._started = False\n            try:\n                if self.auto_refresh and self._refresh_thread is not None:\n                    self._refresh_thread.stop()\n                # allow it",
-  "            started = self._started\n            if not self._started:\n                return\n            self._started = False\n            try:\n                if self.auto_refresh and self._refresh_thread is not None:\n                    self._refresh_thread.stop()\n                # allow it", None)
+V("c10-benign-stop-nested", "C10", "rich/live.py", "            if not self._started:\n                return\n            self._started = False\n            # taken over under the lock: a concurrent start() may install a new thread\n            refresh_thread = self._refresh_thread\n            self._refresh_thread = None\n            try:\n                if refresh_thread is not None:\n                    refresh_thread.stop()\n                # allow it",
+  "            started = self._started\n            if not self._started:\n                return\n            self._started = False\n            # taken over under the lock: a concurrent start() may install a new thread\n            refresh_thread = self._refresh_thread\n            self._refresh_thread = None\n            try:\n                if refresh_thread is not None:\n                    refresh_thread.stop()\n                # allow it", None)
 
 # ---- D16: Text.divide span order (fixed in daf4e05) -----------------------------------
 _DIV_NEW = "        span_stack = sorted(\n            enumerate(self._spans), key=lambda item: item[1].start, reverse=True\n        )\n"
